@@ -60,6 +60,10 @@ import Sds.Proofs.Iter2
 import Sds.Proofs.RLPredSucc
 import Sds.Proofs.GenEqIter
 import Sds.Proofs.GenEqLoop2
+import Sds.Proofs.GenEqSpIter
+import Sds.Proofs.GenEqSpZero
+import Sds.Proofs.GenEqSpAll
+import Sds.Proofs.GenEqRL2
 
 namespace Sds.C10
 open Sds Outcome IterProofs Iter2
@@ -647,5 +651,66 @@ theorem one_iterators_as_translated_from_source (m : Mode) (tr : Tr) (b : BitVec
 checked build, without reading a word -/
 example : Generated.gen_OneIter_nth .checked .ident (RawVec.ofBits [true, false, true]) ⟨(1, 1), (2, 3)⟩ (U64 - 1)
     = ok (none, ⟨(2, 3), (2, 3)⟩) := by decide +kernel
+
+/-! **The sparse vector's three iterators as translated from the source on this run** (`Generated/FnsSpIter.lean`,
+`FnsSpZero.lean`, `FnsSpAll.lean`): `sparse_vector.rs`'s `OneIter` (`next` with the `while !high[next.high]` scan and the
+`combine` call, `next_back` with the backwards scan, `size_hint`), `ZeroIter` (`next_run` with its `loop` over the
+embedded one-iterator, `next`, `size_hint`), `Iter` (`next` with the duplicate-skipping `while let`, `next_back`,
+`size_hint`) and the constructors `one_iter`, `select_iter`, `zero_iter`, `select_zero_iter`, `iter`.  Each equals the
+model iterator the theorems above quantify over, on every vector whose `high` word count and `low` length fit a `usize`
+(every vector the code can hold); a change to a scan condition, to the order of `next`/`limit` updates or to a
+`size_hint` subtraction breaks the equation. -/
+theorem sparse_iterators_as_translated_from_source (m : Mode) (s : Sparse)
+    (hH : s.high.data.data.size * 64 < U64) (hL : s.low.len < U64) :
+    (Generated.gen_SparseVector_one_iter m s = ok (SpOneIter.full s) ∧
+     (∀ r, Generated.gen_SparseVector_select_iter m s r = s.selectIter m r) ∧
+     (∀ it, Generated.gen_SparseOneIter_next m s it = SpOneIter.nextQ m s it) ∧
+     (∀ it, Generated.gen_SparseOneIter_next_back m s it = SpOneIter.nextBackQ m s it) ∧
+     (∀ it : SpOneIter, it.next.low ≤ it.limit.low →
+        Generated.gen_SparseOneIter_size_hint m s it = ok (it.remaining, some it.remaining))) ∧
+    (Generated.gen_SparseVector_zero_iter m s = s.zeroIter m ∧
+     (∀ r, Generated.gen_SparseVector_select_zero_iter m s r = s.selectZeroIter m r) ∧
+     (∀ z, Generated.gen_SparseZeroIter_next_run m s z = SpZeroIter.nextRun m s (s.countOnes + 2) z) ∧
+     (∀ z : SpZeroIter, z.limit.1 < U64 → z.onePos < U64 → z.limit.2 < U64 →
+        Generated.gen_SparseZeroIter_next m s z = SpZeroIter.nextQ m s z) ∧
+     (∀ z : SpZeroIter, z.next.1 ≤ z.limit.1 →
+        Generated.gen_SparseZeroIter_size_hint m s z = ok (z.remaining, some z.remaining))) ∧
+    (Generated.gen_SparseVector_iter m s = s.iter m ∧
+     (∀ it : SpIter, it.limit < U64 → Generated.gen_SparseIter_next m s it = SpIter.nextQ m s it) ∧
+     (∀ it, Generated.gen_SparseIter_next_back m s it = SpIter.nextBackQ m s it) ∧
+     (∀ it : SpIter, it.next ≤ it.limit →
+        Generated.gen_SparseIter_size_hint m s it = ok (it.remaining, some it.remaining))) :=
+  ⟨⟨GenEq.sp_one_iter_eq m s, GenEq.sp_select_iter_eq m s, fun it => GenEq.sp_iter_next_eq m s it hH hL,
+    GenEq.sp_iter_next_back_eq m s, fun it h => GenEq.sp_iter_size_hint_eq m s it h⟩,
+   ⟨GenEq.sp_zero_iter_eq m s hH hL, fun r => GenEq.sp_select_zero_iter_eq m s r hH hL,
+    fun z => GenEq.sp_zero_next_run_eq m s z hH hL, fun z h1 h2 h3 => GenEq.sp_zero_next_eq m s z hH hL h1 h2 h3,
+    fun z h => GenEq.sp_zero_size_hint_eq m s z h⟩,
+   ⟨GenEq.sp_all_iter_eq m s hH hL, fun it h => GenEq.sp_all_next_eq m s it hH hL h, GenEq.sp_all_next_back_eq m s,
+    fun it h => GenEq.sp_all_size_hint_eq m s it h⟩⟩
+
+/-! **The run-length vector's three iterators as translated from the source on this run** (`Generated/FnsRL.lean`):
+`OneIter::next` (advance the run iterator while the current run is exhausted, then `(rank, offset_for(rank))`, `rank += 1`),
+`ZeroIter::next` (the short-circuit `!got_none && …` walk over gaps), `Iter::next` (bit by bit, with the cached run), and the
+three `size_hint`s.  Each equals the model iterator under the representation bounds (`RLBounds`) and the iterator's own
+invariants: the rank / position about to be incremented fits a `usize`, a cached run ends below 2^64 (observation O14:
+on crafted data with a run ending AT 2^64 the release build wraps `start + len` to 0 where the `Nat` model does not —
+`GenEq.rl_iter_next_ne`), and for `size_hint` the invariant that makes the `usize` subtraction exact. -/
+theorem rl_iterators_as_translated_from_source {m : Mode} {v : RL} (hb : GenEq.RLBounds m v) :
+    (∀ it : RLOneIter, it.rank + 1 < U64 → Generated.gen_RLOneIter_next m v it = it.nextQ m v) ∧
+    (∀ it : RLOneIter, it.rank ≤ v.ones →
+        Generated.gen_RLOneIter_size_hint m v it = ok (it.remaining v, some (it.remaining v))) ∧
+    (v.len < U64 → v.ones ≤ v.len → ∀ z : RLZeroIter,
+        (z.gotNone = true → m = .checked → z.iter.rank ≤ z.iter.offsetBits) → z.pos.2 + 1 < U64 →
+        z.iter.offsetBits + 1 < U64 → Generated.gen_RLZeroIter_next m v z = z.nextQ m v) ∧
+    (v.ones ≤ v.len → ∀ z : RLZeroIter, z.pos.1 ≤ v.countZeros →
+        Generated.gen_RLZeroIter_size_hint m v z = ok (z.remaining v, some (z.remaining v))) ∧
+    (∀ it : RLIter, (∀ s l, it.run = some (s, l) → s + l < U64) → it.pos + 1 < U64 →
+        Generated.gen_RLIter_next m v it = it.nextQ m v) ∧
+    (∀ it : RLIter, it.pos ≤ v.len →
+        Generated.gen_RLIter_size_hint m v it = ok (it.remaining v, some (it.remaining v))) :=
+  ⟨fun it h => GenEq.rl_one_next_eq hb it h, fun it h => GenEq.rl_one_size_hint_eq m v it h,
+   fun hlen hol z hgn hp hi => GenEq.rl_zero_next_eq hb z hlen hol hgn hp hi,
+   fun hol z h => GenEq.rl_zero_size_hint_eq m v z hol h,
+   fun it hrun hp => GenEq.rl_iter_next_eq hb it hrun hp, fun it h => GenEq.rl_iter_size_hint_eq m v it h⟩
 
 end Sds.C10
